@@ -1,7 +1,7 @@
 (* Evaluator of the agent model on L1 histories: replays the events the implementation ran, compares
    every projected observable after every event. *)
 From Coq Require Import NArith List Bool.
-From UPF Require Import Model.IPPool Model.Fteid Model.PortRange Model.Agent.
+From UPF Require Import Model.IPPool Model.Fteid Model.PortRange Model.Agent Model.World.
 Import ListNotations.
 Open Scope N_scope.
 
@@ -32,17 +32,6 @@ Fixpoint burst_of (t : list (N * N * N * N)) (w r q : N) : N :=
   | [] => 0
   | (w', r', q', v) :: rest => if (w =? w') && (r =? r') && (q =? q') then v else burst_of rest w r q
   end.
-
-Record world := World { w_agent : agent; w_conns : list (N * conn) }.
-Fixpoint get_conn (i : N) (l : list (N * conn)) : conn :=
-  match l with [] => conn0 | (k, c) :: r => if k =? i then c else get_conn i r end.
-Fixpoint put_conn (i : N) (c : conn) (l : list (N * conn)) : list (N * conn) :=
-  match l with
-  | [] => [(i, c)]
-  | (k, c') :: r => if k =? i then (i, c) :: r else (k, c') :: put_conn i c r
-  end.
-Fixpoint drop_conn (i : N) (l : list (N * conn)) : list (N * conn) :=
-  match l with [] => [] | (k, c) :: r => if k =? i then drop_conn i r else (k, c) :: drop_conn i r end.
 
 Definition boot (k : case) (tb : tables) : world :=
   let pl := match k_pool k with None => None | Some (b, l) => new_pool b l end in
